@@ -50,7 +50,15 @@ func (f *flushComp) Generate(rng *rand.Rand, n int, emit func(Case)) {
 	w("corpus", 80, [2]int64{0, 0}, [2]int64{0, 1}, [2]int64{1200, 0})
 	w("corpus", 60, [2]int64{0, 0}, [2]int64{0, 0}, [2]int64{300, 1})
 	emit(Case{Ops: []Op{{Name: "flushl run", Ints: []int64{700, 40, 8}}}, Tag: "corpus"})
+	// single-line records with a pause longer than any read deadline inside a line / right before its newline: whatever the
+	// listener does at the timeout, the records must be the lines (C08_flush_single_line with the real flush placement)
+	emit(Case{Ops: []Op{{Name: "flushl pause", Ints: []int64{20, 1300}}}, Tag: "corpus"})
+	emit(Case{Ops: []Op{{Name: "flushl pause", Ints: []int64{-1, 1300}}}, Tag: "corpus"})
 	for i := 0; i < n; i++ {
+		if i%16 == 3 {
+			emit(Case{Ops: []Op{{Name: "flushl pause", Ints: []int64{int64(rng.Intn(60)) - 1, int64(1100 + rng.Intn(400))}}}, Tag: "listener-pause"})
+			continue
+		}
 		if i%8 == 7 {
 			emit(Case{Ops: []Op{{Name: "flushl run", Ints: []int64{int64(550 + rng.Intn(500)), int64(25 + rng.Intn(40)), int64(4 + rng.Intn(10))}}}, Tag: "listener"})
 			continue
@@ -110,10 +118,12 @@ func (f *flushComp) Impl(c Case) (out []string) {
 	if len(c.Ops) == 0 {
 		return out
 	}
-	if c.Ops[0].Name == "flushl run" {
+	if c.Ops[0].Name == "flushl run" || c.Ops[0].Name == "flushl pause" {
 		for i, o := range c.Ops {
 			if o.Name == "flushl run" && len(o.Ints) == 3 {
 				out[i] = runFlushListener(o.Ints[0], o.Ints[1], o.Ints[2])
+			} else if o.Name == "flushl pause" && len(o.Ints) == 2 {
+				out[i] = runFlushPause(o.Ints[0], o.Ints[1])
 			} else {
 				out[i] = "bad-op"
 			}
@@ -294,6 +304,69 @@ func runFlushListener(warmMs, nrec, gapMs int64) (res string) {
 		int64(defs.InputFlushInterval), int64(tclose.Sub(tconn)), fl, int64(maxGap), nrec, whole, split)
 }
 
+// runFlushPause: three single-line records on one connection; the stream is cut `cut` bytes into the second record (-1 = right
+// before its newline) and the sender pauses there for pauseMs (longer than the read deadline can be), then sends the rest.
+func runFlushPause(cut, pauseMs int64) (res string) {
+	defer func() {
+		if rec := recover(); rec != nil {
+			res = "panic " + panicKind(rec)
+		}
+	}()
+	recv := &flushRecv{closed: make(chan struct{})}
+	stop := channels.NewSignalAwaitable()
+	lsnr, addr, err := tcplistener.NewTCPLineListener(logger.WithField("verif", "flushp"), "127.0.0.1:0", syslogprotocol.TestRecordStart, recv, stop)
+	if err != nil {
+		return "listen-failed"
+	}
+	lsnr.Start()
+	defer func() {
+		stop.Signal()
+		lsnr.Stopped().Wait(3 * time.Second)
+	}()
+	conn, err := net.Dial("tcp", addr)
+	if err != nil {
+		return "dial-failed"
+	}
+	conn.(*net.TCPConn).SetNoDelay(true)
+	recs := []string{
+		"<14>1 2020-01-02T03:04:05Z h a 1 s - the first record of the connection",
+		"<11>1 2020-01-02T03:04:06Z h a 1 s - the second record, which the pause cuts",
+		"<14>1 2020-01-02T03:04:07Z h a 1 s - the third record",
+	}
+	stream := strings.Join(recs, "\n") + "\n"
+	p := int64(len(recs[0]) + 1)
+	if cut < 0 || cut > int64(len(recs[1])) {
+		p += int64(len(recs[1]))
+	} else {
+		p += cut
+	}
+	conn.Write([]byte(stream[:p]))
+	time.Sleep(time.Duration(pauseMs) * time.Millisecond)
+	conn.Write([]byte(stream[p:]))
+	conn.Close()
+	select {
+	case <-recv.closed:
+	case <-time.After(3 * time.Second):
+		return "sink-not-closed"
+	}
+	recv.mu.Lock()
+	defer recv.mu.Unlock()
+	if len(recv.msgs) == len(recs) {
+		same := true
+		for i := range recs {
+			same = same && recv.msgs[i] == recs[i]
+		}
+		if same {
+			return fmt.Sprintf("pause m=%d cut=%d records=3 ok", int64(defs.InputFlushInterval), p)
+		}
+	}
+	var got []string
+	for _, m := range recv.msgs {
+		got = append(got, strconv.Quote(m))
+	}
+	return fmt.Sprintf("pause m=%d cut=%d BAD %s", int64(defs.InputFlushInterval), p, strings.Join(got, "|"))
+}
+
 func parseListener(l string) map[string]int64 {
 	if !strings.HasPrefix(l, "listener ") {
 		return nil
@@ -361,6 +434,10 @@ func (f *flushComp) Oracle(c Case, implOut []string) string {
 				return fmt.Sprintf("read %d timed out %.1f ms after it was entered: less than the flush interval of %d ms (a flush without a pause)",
 					i, float64(ob.t1-ob.t0)/1e6, m/1e6)
 			}
+		case "flushl pause":
+			if j := strings.Index(implOut[i], " BAD "); j >= 0 {
+				return fmt.Sprintf("three single-line records sent with a pause of %d ms inside the second one were not received as the three lines: %s", o.Ints[1], implOut[i][j+5:])
+			}
 		case "flushl run":
 			kv := parseListener(implOut[i])
 			if kv == nil || kv["maxgap"] >= kv["m"]/2 {
@@ -380,6 +457,15 @@ func (f *flushComp) Oracle(c Case, implOut []string) string {
 }
 
 func (f *flushComp) Class(c Case, implOut []string) string {
+	if len(c.Ops) > 0 && c.Ops[0].Name == "flushl pause" {
+		if len(implOut) > 0 && strings.HasPrefix(implOut[0], "pause ") {
+			if c.Ops[0].Ints[0] < 0 {
+				return "listener-pause/before-newline"
+			}
+			return "listener-pause/inside-line"
+		}
+		return "trivial:listener-failed"
+	}
 	if len(c.Ops) > 0 && c.Ops[0].Name == "flushl run" {
 		if len(implOut) > 0 {
 			if kv := parseListener(implOut[0]); kv != nil {
